@@ -329,7 +329,9 @@ def wake (s : State) : State × Option Result :=
 def setOnline (s : State) (online : Bool) : State :=
   let was := s.isOpen
   let s1 := { s with isOpen := online }
-  if online && !was then { s1 with ver := some (newVerifier s1.record) } else s1
+  -- going online: the queue is emptied (left-overs of a previous response) and what has been
+  -- loaded so far will be re-verified against the new response
+  if online && !was then { s1 with rq := s1.rq.clear, ver := some (newVerifier s1.record) } else s1
 
 /-- the per-message item construction of IngestResponse -/
 def buildItems (md : List (Cid × Action)) (blocks : List (Cid × Blk)) : List Item :=
